@@ -140,3 +140,7 @@ def run(ctx):
     # panic there loses every other thread's entry too (same rule instance as C11/serialisers-total)
     from rules import c11
     c11.rule_serialisers_total(ctx, R="C15/name-failure-serialisable")
+    # the stream is attempted in every dump: its writer is on every success path of generate_dump (same rule instance as C01/every-stream-attempted)
+    from rules import c01 as _c01
+    _c01.rule_stream_attempted(ctx, R="C15/stream-attempted", only=("thread_names_stream::write",))
+
